@@ -57,6 +57,11 @@ def scenarios(W):
     add("server-close-immediately", [ok((0.0, "close", b"\x03\xe8"))], "close-frame", (1000, ""))
     add("server-close-then-eof", [ok(msg, (2.0, "close", b"\x03\xe8bye", True))], "close-frame", (1000, "bye"))
     add("server-close-fragmented-before", [ok((1.0, "frames", R.encode(R.TEXT, b"fr", fin=0)), (1.5, "frames", R.encode(R.CONT, b"ag")), (2.0, "close", b"\x03\xea"))], "close-frame", (1002, ""))
+    # the server gives up on a fragmented message and closes (legal: a close frame may come between the fragments of a message)
+    add("server-close-mid-fragmented-message", [ok((1.0, "frames", R.encode(R.TEXT, b"fr", fin=0)), (2.0, "close", b"\x03\xe9going away"))], "close-frame", (1001, "going away"))
+    add("server-close-mid-fragmented-message-after-ping", [ok((1.0, "frames", R.encode(R.BINARY, b"fr", fin=0) + R.encode(R.CONT, b"ag", fin=0) + R.encode(R.PING, b"p")),
+                                                              (2.0, "close", b"\x03\xe8"))], "close-frame", (1000, ""))
+    add("server-close-mid-fragmented-message-same-segment", [ok((1.0, "frames", R.encode(R.TEXT, b"fr", fin=0) + R.encode(R.CLOSE, b"\x0f\xa0x")))], "close-frame", (4000, "x"))
     add("server-close-bad-utf8-reason-validation-off", [ok(msg, (2.0, "close", b"\x03\xe8bye \xff\xfe"))], "close-frame", (1000, "*"),
         run_kwargs=dict(skip_utf8_validation=True))
     add("server-close-truncated-utf8-reason-validation-off", [ok(msg, (2.0, "close", b"\x0f\xa1\xe2\x82"))], "close-frame", (4001, "*"),
@@ -210,6 +215,9 @@ def judge(res, W, run, sc, Ssim, tag, failure, second=False, dispatcher=None):
     left = run.open_transports()
     if left:
         bad("transport-left-open", f"{len(left)} transport(s) still open when the run ended")
+    elif not second and dispatcher is None and getattr(run, "open_at_return", 0):
+        # released in the end (by a thread still busy in close()), but not yet at the moment run_forever() returned
+        bad("transport-left-open", f"{run.open_at_return} transport(s) still open at the moment run_forever() returned (released only later, by another thread)", when="at-return")
     live = getattr(run, "live_at_return", None) or run.live_ping_actors()
     if live and dispatcher is None:
         bad("ping-thread-alive", f"ping thread(s) {live} alive when the run ended")
@@ -372,6 +380,19 @@ def run(res, tier, seed, shard, nshards):
         dict(name="xthread-close-fragmented", trigger="cross-thread-close", plan=[ok((1.0, "frames", R.encode(R.TEXT, b"ab", fin=0)), (1.0, "frames", R.encode(R.CONT, b"cd")))], ending="own-close",
              close_args=(None, None), run_kwargs={}, hooks={}, raising={}, callbacks=None, app_kwargs={}),
     ]
+    # the peer never answers the client's close frame: the closing thread waits for the reply while the loop thread is woken by its own
+    # timers (a short ping_timeout) or by data that still arrives
+    mute_scs = [
+        dict(name="xthread-close-mute-peer-with-ping-thread", trigger="cross-thread-close", plan=[ok((1.0, "frames", text("m1")), pong=0.05, answer_close=False)], ending="own-close",
+             close_args=(None, None), run_kwargs=dict(ping_interval=0.7, ping_timeout=0.3), hooks={}, raising={}, callbacks=None, app_kwargs={}),
+        dict(name="xthread-close-mute-peer-data-arrives", trigger="cross-thread-close",
+             plan=[ok((0.5, "frames", text("m1")), (1.4, "frames", text("late1")), (2.1, "frames", text("late2")), (3.0, "frames", R.encode(R.PING, b"late")), answer_close=False)],
+             ending="own-close", close_args=(None, None), run_kwargs={}, hooks={}, raising={}, callbacks=None, app_kwargs={}),
+    ]
+    for sc in mute_scs:
+        jobs.append(("plain-x", sc, None))
+        jobs.append(("random2", sc, 0))
+        jobs.append(("sweep2", sc, 0))
     for sc in sweep_scs:
         for part in range(4):
             jobs.append(("sweep", sc, part))
@@ -396,6 +417,10 @@ def run(res, tier, seed, shard, nshards):
         kind, sc, arg = job
         if kind == "nested":
             nested_rerun_case(res, W, arg)
+            continue
+        if kind == "plain-x":
+            run_scenario(res, W, sc, sched.NonPreemptive(), "baseline", with_second=False, line_points=False, closer_at=1.0)
+            res.count("scenario_runs")
             continue
         if kind == "plain":
             # run once as written and once under drawn ambient conditions (TLS transport, late callback assignment, trace logging)
